@@ -434,6 +434,10 @@ def gen_cfg(rng, world, *, registry=False, retry_p=0.3, max_errors_choices=(0, 0
         stale_workers=None,
         output=True,
     )
+    if rng.random() < 0.06:
+        # the default: run(max_workers=None) sizes the pool from the (simulated) core count
+        cfg["max_workers"] = None
+        cfg["cpu_count"] = rng.choice([1, 1, 2, None])
     if rng.random() < retry_p:
         cfg["retry"] = rng.choice([1, 2, 3, ["custom", 2], ["custom", 3]])
     if registry and rng.random() < 0.5:
